@@ -48,6 +48,7 @@ func (k Keeper) HandleRelay(ctx sdk.Ctx, relay pc.Relay) (*pc.RelayResponse, sdk
 	// ensure the validity of the relay and record its proof as one step with respect to other
 	// relays served from the same evidence store
 	_, err := func() (sdk.BigInt, sdk.Error) {
+		pc.SimYield("relay/before-lock")
 		servicerNode.EvidenceStore.LockRelays()
 		defer servicerNode.EvidenceStore.UnlockRelays()
 		maxPossibleRelays, err := relay.Validate(ctx, k.posKeeper, k.appKeeper, k, hostedBlockchains, sessionBlockHeight, servicerNode)
